@@ -134,6 +134,13 @@ func (bf *Filter) matches(data []byte) bool {
 		return false
 	}
 
+	// A loaded filter with an empty bit array has no bits that could rule
+	// anything out (and hashing into it would divide by zero), so, like the
+	// reference implementation, it matches everything.
+	if len(bf.msgFilterLoad.Filter) == 0 {
+		return true
+	}
+
 	// The bloom filter does not contain the data if any of the bit offsets
 	// which result from hashing the data using each independent hash
 	// function are not set.  The shifts and masks below are a faster
@@ -189,7 +196,7 @@ func (bf *Filter) MatchesOutPoint(outpoint *wire.OutPoint) bool {
 //
 // This function MUST be called with the filter lock held.
 func (bf *Filter) add(data []byte) {
-	if bf.msgFilterLoad == nil {
+	if bf.msgFilterLoad == nil || len(bf.msgFilterLoad.Filter) == 0 {
 		return
 	}
 
